@@ -67,6 +67,8 @@ def gen_case(rng, enum=None, small=False):
         g.setdefault("max_depth", 2)
         g.setdefault("min_var", 1)
     w = {"kind": rng.choice(["uniform", "random", "random", "skewed", "ties"]), "seed": rng.randrange(10 ** 6)}
+    if g["kind"] == "cfg":
+        g["rule_order"] = rng.choice(["asis", "asis", "reversed", "shuffled"])
     params = {}
     if enum == "hs_bucket":
         params["bucket_size"] = rng.choice([2, 3, 5, 8])
